@@ -2,7 +2,7 @@
 """Prints the table of seeded changes (markdown) from /verif/seeded/*/meta.json."""
 import json, glob, os
 rows = []
-for d in sorted(glob.glob(os.path.join(os.path.dirname(os.path.abspath(__file__)), "..", "seeded", "c*-*"))):
+for d in sorted(glob.glob(os.path.join(os.path.dirname(os.path.abspath(__file__)), "..", "seeded", "c*-*")), key=lambda x: (os.path.basename(x).split("-")[0], int(os.path.basename(x).split("-")[1]))):
     try:
         m = json.load(open(os.path.join(d, "meta.json")))
     except Exception:
@@ -10,10 +10,11 @@ for d in sorted(glob.glob(os.path.join(os.path.dirname(os.path.abspath(__file__)
     name = os.path.basename(d)
     first = m.get("first_result", "")
     final = "; ".join("%s %s" % (k, v["result"]) for k, v in sorted(m.get("checks", {}).items()))
-    rows.append((name, m.get("title", "")[:110].replace("|", "/"), ", ".join(m.get("files", []))[:70], first, final, m.get("note", "")[:80]))
+    rows.append((name + " (r%s)" % m.get("round", "?"), m.get("title", "")[:110].replace("|", "/"), ", ".join(m.get("files", []))[:70], first, final, m.get("note", "")[:80]))
 print("| change | title | files | first evaluation | final checks | note |")
 print("|---|---|---|---|---|---|")
 for r in rows:
     print("| " + " | ".join(r) + " |")
 caught = sum(1 for r in rows if "caught" in r[4])
-print("\n%d changes, %d caught by the final checks (quick tier), %d missed." % (len(rows), caught, len(rows) - caught))
+first = sum(1 for r in rows if r[3] == "caught")
+print("\n%d changes; first evaluation (checks as they stood then): %d caught; final checks (quick tier): %d caught, %d missed." % (len(rows), first, caught, len(rows) - caught))
